@@ -869,6 +869,7 @@ class Rec:
         self.samples: list[Any] = []
         self.traces = 0
         self.complete = True
+        self.crashed: str | None = None
 
     def count(self, group: str, tag: Any, n: int = 1) -> None:
         g = self.hist.setdefault(group, {})
@@ -937,7 +938,8 @@ def is_catchall(h: dict) -> bool:
 # (D) handler x state grids through registries.match / prematch
 # =============================================================================================
 def eval_grid(env: Env, rec: Rec, hs: list[dict], sts: list[dict], what: str, *, use_model: bool = True,
-              driver: leanio.Driver | None = None, causes: list | None = None, sample_every: int = 0) -> None:
+              driver: leanio.Driver | None = None, causes: list | None = None, sample_every: int = 0,
+              queue: tuple[list, list] | None = None) -> None:
     """every handler of `hs` against every state of `sts`: real match/prematch vs. the documented
     reading (oracle) and vs. the Lean model (tie)."""
     match, prematch = env.registries.match, env.registries.prematch
@@ -991,20 +993,22 @@ def eval_grid(env: Env, rec: Rec, hs: list[dict], sts: list[dict], what: str, *,
         impl_rows.append("".join(row))
     if not use_model:
         return
-    drv = driver or leanio.Driver()
     lean_states = [lean_c(st) for st in sts]
-    reqs = [["C15.grid", [lean_h(h) for h in hs[i:i + 64]], lean_states] for i in range(0, len(hs), 64)]
-    try:
-        outs = drv.ask(reqs)
-    except leanio.LeanError as e:
-        rec.tie_fail(f"Lean driver failed: {e}", {"log": e.log[-2000:]})
-        return
-    model_rows: list[Any] = []
-    for o in outs:
-        if o and o[0] == "ok":
-            model_rows.extend(o[1])
-        else:
-            model_rows.extend([o] * 64)
+    reqs: list = []
+    pending: list = []
+    for i in range(0, len(hs), 64):
+        reqs.append(["C15.grid", [lean_h(h) for h in hs[i:i + 64]], lean_states])
+        pending.append(("grid:" + what, (hs[i:i + 64], sts, impl_rows[i:i + 64]), None))
+    if queue is not None:
+        queue[0].extend(reqs)
+        queue[1].extend(pending)
+    else:
+        flush(rec, driver or leanio.Driver(), reqs, pending)
+
+
+def compare_grid(rec: Rec, what: str, impl: tuple, out: Any) -> None:
+    hs, sts, impl_rows = impl
+    model_rows = out[1] if (isinstance(out, list) and out and out[0] == "ok") else [out] * len(hs)
     for h, irow, mrow in zip(hs, impl_rows, model_rows):
         rec.tie_comparisons += 1
         if irow != mrow:
@@ -1012,7 +1016,7 @@ def eval_grid(env: Env, rec: Rec, hs: list[dict], sts: list[dict], what: str, *,
             rec.tie_fail(f"{what}: implementation and model differ (digit = match + 2*prematch)",
                          {"input": {"kind": "pair", "handler": h, "state": sts[j]}, "impl": irow[j],
                           "model": mrow[j] if isinstance(mrow, str) and j < len(mrow) else mrow})
-    rec.traces += len(hs) * len(sts)
+    rec.traces += len(hs) * len(sts) - 1
 
 
 def ext_field_states() -> list[dict]:
@@ -1117,10 +1121,10 @@ def random_large_cases(rng: random.Random, n: int) -> list[tuple[list[dict], lis
 # =============================================================================================
 def random_decl(rng: random.Random, cls: str) -> tuple[dict, str]:
     """a declaration that kopf.on.* accepts, over the small alphabet"""
-    small = [None, None, {"v": "x"}, "P", "A", {"cb": "is_x"}]
+    small = [None, None, None, {"v": "x"}, "P", "A", {"cb": "is_x"}]
     l, a = pat(LK, rng.choice(small)), pat(AK, rng.choice(small))
-    w = rng.choice([None, None, True, False])
-    sel = rng.choice([PLURAL] * 5 + ["others"])
+    w = rng.choice([None, None, None, True, True, False])
+    sel = rng.choice([PLURAL] * 9 + ["others"])
     fn = rng.randrange(3)
     hid = rng.choice(["a", "b", f"fn{fn}", f"fn{fn}"])
     if cls == "changing":
@@ -1228,12 +1232,12 @@ def random_select_case(rng: random.Random) -> dict:
         else:
             h, kind = random_decl(rng, cls)
             handlers.append((h, kind, rng.random() < 0.6))
-    lv, av, ov, nv = rng.choice(VALS), rng.choice(VALS), rng.choice(VALS + [NOOLD]), rng.choice(VALS)
+    lv, av, ov, nv = rng.choice(VALS + ["x"]), rng.choice(VALS + ["x"]), rng.choice(VALS + [NOOLD]), rng.choice(VALS)
     if cls == "changing":
-        reason = rng.choice(["create", "update", "delete", "resume", "noop", "free", "gone"])
+        reason = rng.choice(["create"] * 3 + ["update"] * 3 + ["delete"] * 2 + ["resume"] * 2 + ["noop", "free", "gone"])
         st = state(cls, labels={} if lv is None else {LK: lv}, annotations={} if av is None else {AK: av},
                    body_extra={"spec": spec_of(nv)}, old=None if ov == NOOLD else {"spec": spec_of(ov)}, new={"spec": spec_of(nv)},
-                   reason=reason, initial=rng.random() < 0.4, marked=rng.random() < 0.3)
+                   reason=reason, initial=rng.random() < 0.5, marked=reason == "delete" or rng.random() < 0.15)
     else:
         st = state(cls, labels={} if lv is None else {LK: lv}, annotations={} if av is None else {AK: av},
                    body_extra={"spec": spec_of(nv)})
@@ -1432,15 +1436,34 @@ def model_effects(out: Any) -> Any:
     return r
 
 
+class DriverUnavailable(RuntimeError):
+    """the Lean driver process itself does not run (toolchain / concurrent build): exit 2, not a verdict"""
+
+
+def ask(driver: leanio.Driver, reqs: list) -> list:
+    """driver.ask with retries: while another check rebuilds Kopf.Drv.All its .olean is briefly
+    missing; wait for the build lock, rebuild, try again. A driver that still does not run is a
+    harness error (exit 2), never a tie failure."""
+    import time
+    last: Exception | None = None
+    for attempt in range(4):
+        try:
+            return driver.ask(reqs)
+        except leanio.LeanError as e:
+            last = e
+            time.sleep(1 + 2 * attempt)
+            leanio.lake_build(["Kopf.Drv.All"])
+    raise DriverUnavailable(f"Lean driver does not run: {last}; {getattr(last, 'log', '')[-500:]}")
+
+
 def flush(rec: Rec, driver: leanio.Driver, reqs: list, pending: list) -> None:
     if not reqs:
         return
-    try:
-        outs = driver.ask(reqs)
-    except leanio.LeanError as e:
-        rec.tie_fail(f"Lean driver failed: {e}", {"log": e.log[-2000:]})
-        return
+    outs = ask(driver, reqs)
     for (what, impl, replay), out in zip(pending, outs):
+        if what.startswith("grid:"):
+            compare_grid(rec, what[5:], impl, out)
+            continue
         model = model_effects(out) if what == "cycle effects" else (out[1] if out and out[0] == "ok" else out)
         rec.compare(what, impl, model, replay)
     rec.traces += len(reqs)
@@ -1470,29 +1493,35 @@ def _worker(args: tuple) -> Rec:
     except Exception as e:  # pragma: no cover
         import traceback
         rec.complete = False
-        rec.tie_fail(f"worker crashed: {e}", {"trace": traceback.format_exc()[-2000:]})
+        rec.crashed = f"{type(e).__name__}: {e}\n{traceback.format_exc()[-1500:]}"
     return rec
 
 
-def fixed_sweeps(env: Env, rec: Rec, use_model: bool = True) -> None:
-    drv = leanio.Driver()
+def fixed_sweeps(env: Env, rec: Rec, use_model: bool = True, full: bool = True, rng: random.Random | None = None) -> None:
+    q: tuple[list, list] = ([], [])
+    kw: dict[str, Any] = dict(use_model=use_model, queue=q)
     # watching / spawning / indexing handlers on their own causes: the full product
     for cls in ("watching", "spawning", "indexing"):
         eval_grid(env, rec, plain_handler_product(cls), std_watching_states(cls), f"{cls} handler x {cls} cause",
-                  use_model=use_model, driver=drv, sample_every=9973)
+                  sample_every=9973, **kw)
     # cross-class: a watching handler against changing causes (only the tie; the docs are silent)
-    eval_grid(env, rec, plain_handler_product("watching"), std_changing_states(), "watching handler x changing cause",
-              use_model=use_model, driver=drv)
+    cross = plain_handler_product("watching")
+    if not full:
+        cross = (rng or random.Random(0)).sample(cross, 120)
+    eval_grid(env, rec, cross, std_changing_states(), "watching handler x changing cause", **kw)
     # extended field alphabet: null values, is-None/truthy callbacks, the private token, odd paths
-    eval_grid(env, rec, ext_field_handlers("changing"), ext_field_states(), "extended field criteria", use_model=use_model, driver=drv)
+    ext = ext_field_handlers("changing")
+    eval_grid(env, rec, ext, ext_field_states(), "extended field criteria", **kw)
     wst = [state("watching", body_extra={"spec": sp}) for sp in ({}, {"f": "x"}, {"f": None}, {"f": {"deep": 1}}, {"f": 1}, "scalar")]
-    eval_grid(env, rec, ext_field_handlers("watching"), wst, "extended field criteria (watching)", use_model=use_model, driver=drv)
+    eval_grid(env, rec, ext_field_handlers("watching"), wst, "extended field criteria (watching)", **kw)
     # extended metadata alphabet: two keys, empty strings, absent metadata
     mh, ms = ext_meta_cases()
     for cls in ("changing", "watching", "spawning"):
         sub = [h for h in mh if h["_cls"] == cls]
         sts = ms if cls == "changing" else [dict(st, _cls=cls, ch=False, o=None, n=None) for st in ms]
-        eval_grid(env, rec, sub, sts, "extended metadata criteria", use_model=use_model, driver=drv)
+        eval_grid(env, rec, sub, sts, "extended metadata criteria", **kw)
+    if use_model:
+        flush(rec, leanio.Driver(), q[0], q[1])
 
 
 def run_corpus(env: Env, rec: Rec) -> None:
@@ -1510,7 +1539,8 @@ def run_case(env: Env, rec: Rec, data: dict, reqs: list, pending: list, drv: lea
     import asyncio
     kind = data.get("kind")
     if kind == "pair":
-        eval_grid(env, rec, [data["handler"]], [data["state"]], "corpus/replay pair", use_model=use_model and drv is not None, driver=drv)
+        eval_grid(env, rec, [data["handler"]], [data["state"]], "corpus/replay pair", use_model=use_model and drv is not None,
+                  queue=(reqs, pending))
     elif kind == "select":
         c = data["case"]
         c = dict(c, handlers=[tuple(x) for x in c["handlers"]])
@@ -1532,11 +1562,14 @@ def run(ctx: Ctx) -> None:
     rng = ctx.rng
     drv = leanio.Driver()
     run_corpus(env, rec)
-    fixed_sweeps(env, rec)
+    exhaustive = ctx.tier == "thorough" and float(os.environ.get("VERIF_SCALE", "1")) >= 1
+    fixed_sweeps(env, rec, full=ctx.tier == "thorough", rng=rng)
+    reqs: list = []
+    pending: list = []
+    q = (reqs, pending)
 
     # ---- the changing product ------------------------------------------------------------------
     sts = std_changing_states()
-    exhaustive = ctx.tier == "thorough" and float(os.environ.get("VERIF_SCALE", "1")) >= 1
     if exhaustive:
         import multiprocessing as mp
         nproc = min(16, os.cpu_count() or 1)
@@ -1545,25 +1578,25 @@ def run(ctx: Ctx) -> None:
         with mp.get_context("fork").Pool(nproc) as pool:
             recs = pool.map(_worker, shards, chunksize=1)
         for r in recs:
+            if r.crashed:
+                raise RuntimeError("a shard of the exhaustive enumeration crashed (harness error): " + r.crashed)
             r.merge_into(ctx)
         ctx.exhaustive = all(r.complete for r in recs) and sum(b - a for a, b, _, _ in shards) == N_CHANGING_PRODUCT
     else:
-        n = max(1, ctx.budget(20000, 20000) // len(sts))
+        n = max(1, ctx.budget(40000, 40000) // len(sts))
         ks = sorted(rng.sample(range(N_CHANGING_PRODUCT), min(n, N_CHANGING_PRODUCT)))
         hs = [nth_changing_handler(k) for k in ks]
-        eval_grid(env, rec, hs, sts, "changing handler x changing cause", driver=drv, sample_every=4999)
+        eval_grid(env, rec, hs, sts, "changing handler x changing cause", queue=q, sample_every=4999)
         ks2 = rng.sample(range(N_CHANGING_PRODUCT), min(60, N_CHANGING_PRODUCT))
-        eval_grid(env, rec, [nth_changing_handler(k) for k in ks2], std_watching_states(), "changing handler x watching cause", driver=drv)
+        eval_grid(env, rec, [nth_changing_handler(k) for k in ks2], std_watching_states(), "changing handler x watching cause", queue=q)
         ctx.exhaustive = False
 
     # ---- random larger label maps / patterns -----------------------------------------------------
     for hs_, sts_ in random_large_cases(rng, ctx.budget(40, 400)):
-        eval_grid(env, rec, hs_, sts_, "random larger maps", driver=drv)
+        eval_grid(env, rec, hs_, sts_, "random larger maps", queue=q)
 
     # ---- registries, dedup, cycles ---------------------------------------------------------------
-    reqs: list = []
-    pending: list = []
-    for _ in range(ctx.budget(1500, 20000)):
+    for _ in range(ctx.budget(3000, 30000)):
         run_select_case(env, rec, random_select_case(rng), reqs, pending)
     for _ in range(ctx.budget(300, 3000)):
         keys = [[rng.randrange(3), rng.choice(["a", "b", "c"])] for _ in range(rng.randint(0, 8))]
@@ -1571,7 +1604,7 @@ def run(ctx: Ctx) -> None:
     flush(rec, drv, reqs, pending)
 
     async def cycles() -> None:
-        for _ in range(ctx.budget(1200, 15000)):
+        for _ in range(ctx.budget(2500, 20000)):
             await run_cycle_case(env, rec, random_cycle_case(rng), reqs, pending)
     asyncio.run(cycles())
     flush(rec, drv, reqs, pending)
